@@ -119,15 +119,19 @@ def perturb_params(params, fold=1, lower_bound=None, upper_bound=None):
     """
     pnew = params * 2**(fold * (2*numpy.random.uniform(size=len(params))-1))
     if lower_bound is not None:
-        for ii,bound in enumerate(lower_bound):
-            if bound is None:
-                lower_bound[ii] = -numpy.inf
-        pnew = numpy.maximum(pnew, 1.01*numpy.asarray(lower_bound))
+        # Work on a copy, so the caller's list is not altered.
+        lower_bound = numpy.array([-numpy.inf if bound is None else bound
+                                   for bound in lower_bound], dtype=float)
+        # Stay 1% inside the bound, whatever its sign.
+        finite = numpy.isfinite(lower_bound)
+        lower_bound[finite] += 0.01*numpy.abs(lower_bound[finite])
+        pnew = numpy.maximum(pnew, lower_bound)
     if upper_bound is not None:
-        for ii,bound in enumerate(upper_bound):
-            if bound is None:
-                upper_bound[ii] = numpy.inf
-        pnew = numpy.minimum(pnew, 0.99*numpy.asarray(upper_bound))
+        upper_bound = numpy.array([numpy.inf if bound is None else bound
+                                   for bound in upper_bound], dtype=float)
+        finite = numpy.isfinite(upper_bound)
+        upper_bound[finite] -= 0.01*numpy.abs(upper_bound[finite])
+        pnew = numpy.minimum(pnew, upper_bound)
     return pnew
 
 def make_fux_table(fid, ts, Q, tri_freq):
